@@ -392,10 +392,9 @@ class Interval(NominalValueMixin):
         if self_straddle_zero:
             raise ZeroDivisionError
         if (leftType == "ndarray") | (leftType in NUMERIC_TYPES):
-            if left >= 0:
-                lo, hi = left / self_hi, left / self_lo
-            else:
-                lo, hi = left / self_lo, left / self_hi
+            left_positive = left >= 0  # elementwise for an ndarray numerator
+            lo = numpy.where(left_positive, left / self_hi, left / self_lo)
+            hi = numpy.where(left_positive, left / self_lo, left / self_hi)
         else:
             return NotImplemented
         return Interval(lo, hi)
